@@ -161,6 +161,11 @@ func (c *Candidates) SetDeletedCandidates(list []types.DeletedCandidate) {
 
 	c.dirtyDeletedCandidates = true
 	for _, deleted := range list {
+		if c.maxID < uint32(deleted.ID) {
+			// ids of deleted candidates stay reserved: frozen funds and the wait list still refer to them
+			c.maxID = uint32(deleted.ID)
+			c.isDirty = true
+		}
 		c.deletedCandidates[deleted.PubKey] = &deletedID{
 			ID:      uint32(deleted.ID),
 			PybKey:  deleted.PubKey,
